@@ -166,7 +166,7 @@ static std::string sweep_program(uint64_t run) { std::string s; for (uint64_t i 
 
 struct C01 : Profile {
   const char* id() const override { return "C01"; }
-  long budget(const std::string& tier) const override { return tier == "thorough" ? 2000000 : 30000; }
+  long budget(const std::string& tier) const override { return tier == "thorough" ? 2000000 : 40000; }
   std::string rule() const override {
     return "plan = source text + delivery route + fault. Texts: (a) vocabulary programs - every statement kind, 55 built-ins, 25 binary and 5 unary operators, the type methods and "
            "tuple accessors applied to arguments from a lattice {0, +-1, 2^k, 2^k+-1, INT64_MIN/MAX, typed and untyped nulls, +-0.0, inf, nan, subnormal, empty / numeric-looking / "
